@@ -7,6 +7,7 @@ open GlueVerif.C03
 #print axioms spec_local_implies_composed
 #print axioms specDepth_reachable
 #print axioms manager_inv
+#print axioms manager_inv_noRemove_unconditional
 #print axioms manager_reads
 #print axioms derived_reads_internal
 #print axioms selection_via_links
